@@ -225,9 +225,19 @@ pub fn params_replay(args: &Args) -> i32 {
     for (label, s) in crate::gen::sweep_streams(&mut rng, 2, 2) {
         streams.push((label, s));
     }
+    for (label, s) in crate::gen::window_edge_streams(&mut rng) {
+        if s.len() < 3000 || label.contains("d32768/second") {
+            streams.push((label, s));
+        }
+    }
     if let Some(extra) = args.get("extra") {
         if let Ok(txt) = std::fs::read_to_string(extra) {
-            for (i, l) in txt.lines().enumerate().take(args.num("extramax", 6) as usize) {
+            // spread over the whole file: the generator's modes (mixed, far, twin) come one after the other
+            let lines: Vec<&str> = txt.lines().collect();
+            let want = (args.num("extramax", 6) as usize).min(lines.len()).max(1);
+            for k in 0..want {
+                let i = k * lines.len() / want;
+                let l = lines[i];
                 streams.push((format!("generated/{}", i), unhex(l.trim())));
             }
         }
